@@ -11,11 +11,11 @@ C={
         "boundary alphabet, not the full 2^16 x 2^29 range; listed in the evidence rule"),
  "C14":("model_checking","bounded exhaustive operation-sequence enumeration after a fixed set of reads, on a harness file system in mmap-lifetime mode (memory handed out by File.Slice poisoned on every write/truncate/close) and on the real fs.OSMMap/fs.OS with faults turned into panics; returned-slice-stability and input-slice-independence oracles",
         "depth bound as reported; simfs poison mode models the strictest FileSystem the interface allows"),
- "C17":("model_checking","bounded exhaustive program enumeration (all words <= d over writes/deletes/compaction/restart/backup/torn-tail restarts/large records) executed on simfs, fs.Mem, fs.OS and fs.OSMMap with a four-way differential oracle on per-call results and segment bytes",
+ "C17":("model_checking","bounded exhaustive program enumeration (all words <= d over writes/deletes/compaction/restart/backup/torn-tail restarts/large records) executed on simfs, fs.Mem, fs.OS and fs.OSMMap with a four-way differential oracle on per-call results and segment bytes + exhaustive interleaving exploration (controlled scheduler, every file-system call a scheduling point) of 2-3 reader/writer threads on simfs with every schedule replayed on the other three file systems (same calls, results, contents)",
         "depth bound as reported; error texts not compared; hash seed pinned"),
  "C13":("model_checking","exhaustive interleaving exploration of the REAL lock system calls (stat/open/flock/unlink/close of fs.OS on a scratch directory, yield hooks as scheduling points, unbounded preemptions) for 2-3 openers/closers/dying holders + bounded exhaustive Open/Close/Kill/Put words on fs.OS, fs.OSMMap, fs.Mem; holder-count, acquiredExisting and failed-Open-changes-nothing oracles",
         "flock semantics of the running kernel; process death = closing the descriptor without unlinking; one known finding (creation race between two first-time openers: unnecessary recovery) is listed in known_findings.json"),
- "C10":("model_checking","exhaustive interleaving exploration (controlled scheduler; lock operations and, for FileSize/Backup, file-system calls as scheduling points) of all public-method pairs, Close triples, shared iterators, maintenance tasks and the background worker; panic/deadlock/handle-state-race/live-goroutine/use-after-Close oracles; complemented by a free-running Go race detector pass",
+ "C10":("model_checking","exhaustive interleaving exploration (controlled scheduler; lock operations and, for FileSize/Backup, file-system calls as scheduling points) of all public-method pairs, Close triples, shared iterators, maintenance tasks, the background worker, and readers/writer directly on fs.OS and fs.OSMMap with every file-system call a scheduling point; panic/deadlock/handle-state-race/live-goroutine/use-after-Close oracles; complemented by a free-running Go race detector pass",
         "data races on in-memory fields are visible only to the free-running race-detector complement (sampling, labelled); larger scenarios completed up to the reported preemption bound"),
  "C12":("model_checking","exhaustive interleaving exploration (controlled scheduler; scheduling points at every lock operation and every file-system call on segment files/directory) of Backup against 1-2 writer threads/Compact with log rollover; opened backup must equal a prefix state between call and return",
         "writer programs <= 2 ops (3 thorough); index/meta file calls are not scheduling points; larger scenarios are completed up to the reported preemption bound"),
